@@ -460,8 +460,8 @@ def info(m, cls, o):
     try:
         rv = o.__reduce_ex__(2)
         f = rv[0]
-        d["rv"] = {"f": getattr(f, "__name__", "?"), "type_ok": rv[1][0] is type(o) if len(rv) > 1 and rv[1] else None,
-                   "chk": rv[1][1] if len(rv[1]) > 1 else None,
+        d["rv"] = {"f": getattr(f, "__name__", "?"), "type_ok": (rv[1][0] is type(o)) if len(rv) > 1 and rv[1] else None,
+                   "chk": rv[1][1] if len(rv[1]) > 1 and isinstance(rv[1][1], int) else None,
                    "arg": None if len(rv[1]) < 3 or rv[1][2] is None else [canon(x, (o,)) for x in rv[1][2]],
                    "state": None if len(rv) < 3 or rv[2] is None else
                             ([canon(x, (o,)) for x in rv[2]] if isinstance(rv[2], tuple) else "?" + canon(rv[2], (o,)))}
@@ -668,12 +668,12 @@ def run(ctx):
     rng = ctx.rng
     model = ctx.model("pickle")
     fl = flags()
-    nmod, nfam = (3, 11) if quick else (10, 16)
+    nmod, nfam = (2, 11) if quick else (8, 16)
     forced_all = ["cinit", "ptr", "struct", "structT", "off", "reduce", "reduce_ex", "getstate", "charp",
                   "structp", "offroot", "off"]
     mods = []
     for i in range(nmod):
-        forced = forced_all[i * 4:(i + 1) * 4] if quick else rng.sample(forced_all, 6)
+        forced = forced_all[i * 6:(i + 1) * 6] if quick else rng.sample(forced_all, 6)
         mods.append(gen_module(rng, i, nfam, forced))
     specs = [dict(name=mn, source=module_source(fams), workdir=ctx.workdir, cflags=["-O0"]) for mn, fams in mods]
     # module-level names that shadow class method lookups (lookup() walks into the module scope)
@@ -831,7 +831,7 @@ def run(ctx):
                     n_viol += 1
                     ctx.fail(classify(c, envq), inp_op, o, "round trip" if rule == "RT" else "TypeError")
                 if rt_m.startswith("O "):
-                    if not (rule != "RT" and is_te):
+                    if not (rule != "RT" and is_te) and "=dangling" not in rt_m:
                         ctx.corr_break("pickle:rt_raises", inp_op, o, rt_m)
                 elif rt_m.startswith("E TypeError") and not is_te:
                     ctx.corr_break("pickle:rt_exc", inp_op, o, rt_m)
@@ -849,7 +849,9 @@ def run(ctx):
                 mod_after = {}
                 for it in ([] if slots_s == "-" else slots_s.split(",")):
                     k, v = it.split("=")
-                    if v == "oN":
+                    if v == "dangling":      # undefined content: anything observed is consistent
+                        mod_after[decname(k)] = o["after"].get(decname(k))
+                    elif v == "oN":
                         mod_after[decname(k)] = "None"
                     elif v.startswith("oA"):
                         mod_after[decname(k)] = tokcanon(int(v[2:]), src2canon)
@@ -1098,18 +1100,21 @@ def layout_change(ctx, model, fl, state):
 
 # --------------------------------------------------------------------------- compile-time behaviour
 CT_SCRIPT = r'''
-import sys, os, json, io
+import sys, os, json, io, re
 import pyload; pyload.install()
 spec = json.load(sys.stdin)
 import hashlib
-for a in spec.get("drop", []):
-    def _missing(*args, _a=a, **kw):
-        raise ValueError("unsupported hash type " + _a)
-    setattr(hashlib, a, _missing)
+REAL = {a: getattr(hashlib, a) for a in ("sha256", "sha1", "md5")}
 from Cython.Compiler import Main, Options
 pyload.assert_sources()
 out = []
-for i, src in enumerate(spec["sources"]):
+for i, (src, drop) in enumerate(spec["sources"]):
+    for a, f in REAL.items():
+        setattr(hashlib, a, f)
+    for a in drop:
+        def _missing(*args, _a=a, **kw):
+            raise ValueError("unsupported hash type " + _a)
+        setattr(hashlib, a, _missing)
     p = os.path.join(os.getcwd(), "ct%d.pyx" % i)
     open(p, "w").write(src)
     d = dict(Options.get_directive_defaults()); d["language_level"] = 3
@@ -1122,7 +1127,6 @@ for i, src in enumerate(spec["sources"]):
         finally:
             sys.stderr = old
         csrc = open(p[:-4] + ".c").read() if n == 0 and os.path.exists(p[:-4] + ".c") else ""
-        import re
         m = re.search(r"__Pyx_CheckUnpickleChecksum\(__pyx_v___pyx_checksum, (0x[0-9a-f]+), (0x[0-9a-f]+), (0x[0-9a-f]+)", csrc)
         out.append({"errors": n, "msg": err.getvalue()[-600:], "chk": list(m.groups()) if m else None})
     except BaseException as e:
@@ -1130,47 +1134,50 @@ for i, src in enumerate(spec["sources"]):
 print(json.dumps(out))
 '''
 
+CT_FEATS = ["cinit", "ptr", "structp", "struct", "plain", "charp"]
+CT_DROPS = [(["md5"], "01"), (["sha1", "md5"], "0"), (["sha1"], "02"), ([], "012")]
 
-def compile_time(ctx, model, fl):
-    """auto_pickle(True) on a class that cannot be pickled is a compile-time error; hashlib without md5/sha1
-    (the case the source comments on) must still compile"""
-    rng = ctx.rng
-    # (a) forced auto_pickle
+
+def ct_cases():
     fams = []
-    for i, feat in enumerate(["cinit", "ptr", "structp", "struct", "plain", "charp"]):
+    for i, feat in enumerate(CT_FEATS):
         c = Cls("F%d" % i, None, [("a", "int")], auto=True)
         if feat == "cinit":
             c.cinit = True
         elif feat != "plain":
             c.members.append(("p", {"ptr": "intp"}.get(feat, feat)))
         fams.append((feat, c))
-    sources = [HEADER + c.source() + "_C29_ATTRS = {}\n" for _, c in fams]
-    r = cybuild.run_script(CT_SCRIPT, os.path.join(ctx.workdir, "ct"), {"sources": sources, "drop": []},
-                           name="c29_ct.py")
+    plain = Cls("H0", None, [("a", "int"), ("b", "object")])
+    return fams, plain
+
+
+def compile_time_run(ctx):
+    fams, plain = ct_cases()
+    sources = [[HEADER + c.source() + "_C29_ATTRS = {}\n", []] for _, c in fams]
+    sources += [["cimport cython\n" + plain.source(), drop] for drop, _ in CT_DROPS]
+    return cybuild.run_script(CT_SCRIPT, os.path.join(ctx.workdir, "ct"), {"sources": sources}, name="c29_ct.py")
+
+
+def compile_time(ctx, model, fl, r):
+    """auto_pickle(True) on a class that cannot be pickled is a compile-time error; hashlib without md5/sha1
+    (the case the source comments on) must still compile"""
+    fams, plain = ct_cases()
     outs = r["json"] or []
-    qs = ["decide %s 00 %s" % (fl, c.enc(1)) for _, c in fams]
-    mres = model.batch(qs)
+    if len(outs) != len(fams) + len(CT_DROPS):
+        ctx.corr_break("pickle:ct_script", "compile-time script", (r["err"] or "")[-500:], "results")
+        return
+    mres = model.batch(["decide %s 00 %s" % (fl, c.enc(1)) for _, c in fams])
     for (feat, c), o, m in zip(fams, outs, mres):
         inp = {"case": "auto_pickle(True)/" + feat, "source": c.source()}
         ctx.case("compile/forced/" + feat, inp, sig=("forced", feat))
         must_fail = doc_rule_static(c) == "TE"
         if must_fail != (o["errors"] != 0):
-            if feat == "charp":
-                ctx.fail("char_ptr_member_not_preserved", inp, o, "compile error")
-            else:
-                ctx.fail("forced_autopickle_compile", inp, o, "compile error" if must_fail else "compiles")
+            ctx.fail("forced_autopickle_compile", inp, o, "compile error" if must_fail else "compiles")
         if m.endswith(" CE") != (o["errors"] != 0):
             ctx.corr_break("pickle:compile_error", inp, o, m)
-    if len(outs) != len(fams):
-        ctx.corr_break("pickle:ct_script", "forced", r["err"][-500:], "results")
-    # (b) missing hash algorithms
-    plain = Cls("H0", None, [("a", "int"), ("b", "object")])
+    names = [n for n, _ in plain.all_members()]
     src = "cimport cython\n" + plain.source()
-    for drop, avail in [(["md5"], "01"), (["sha1", "md5"], "0"), (["sha1"], "02"), ([], "012")]:
-        r = cybuild.run_script(CT_SCRIPT, os.path.join(ctx.workdir, "ct"), {"sources": [src], "drop": drop},
-                               name="c29_ct.py")
-        o = (r["json"] or [{"errors": -2, "msg": r["err"][-400:], "chk": None}])[0]
-        names = [n for n, _ in plain.all_members()]
+    for (drop, avail), o in zip(CT_DROPS, outs[len(fams):]):
         m = model.batch(["accepted %s %s %s %s" % (fl, avail, hash_table([names]), plain.enc(1))])[0]
         inp = {"case": "hashlib without " + (",".join(drop) or "nothing"), "source": src}
         ctx.case("compile/hash/" + avail, inp, sig=("hash", avail))
